@@ -25,7 +25,7 @@ fn main() {
         level: Level::Exploration,
         quick_runs: 60_000,
         thorough_runs: 2_000_000,
-        quick_wall_s: 60.0,
+        quick_wall_s: 45.0,
         thorough_wall_s: 600.0,
         event_cap: 5_000,
         enumerate: None,
